@@ -346,6 +346,43 @@ def jsOp (op : String) (j : JS) : Option String :=
     some (reply (typeofOut (typeofJS j)) (typeofOut (Spec.typeofJS j)) "-")
   | _ => none
 
+/-! ### calls -/
+
+def asciiOut (bs : List Nat) : String := String.ofList (bs.map Char.ofNat)
+
+/-- what the probe function prints for a value: typeof + ":" + String(x) (strings in hex) -/
+def obsView : View → String
+  | .undefined => "undefined:undefined"
+  | .null => "object:null"
+  | .bool b => "boolean:" ++ boolOut b
+  | .num x => "number:" ++ (match Spec.numToString x with | some d => asciiOut d | none => "unmodelled")
+  | .str _ bs => "string:" ++ bytesOut bs
+  | .object => "object:object"
+
+def obsThis : ThisObs → String
+  | .global => "global"
+  | .self => "self"
+  | .boxed v => "boxed:" ++ obsView v
+
+def obsCall (o : ThisObs × List View) : String := obsThis o.1 ++ "|" ++ ";".intercalate (o.2.map obsView)
+
+def goVals? : List String → Option (List GoVal)
+  | [] => some []
+  | a :: r => do let g ← goVal? a; let gs ← goVals? r; pure (g :: gs)
+
+def path? (kind mem this : String) : Option Path :=
+  let m := mem == "m"
+  match kind with
+  | "vcall" => if this = "self" then some (.valueCall none) else (goVal? this).map fun g => .valueCall (some g)
+  | "ocall" => some .objectCall
+  | "gcall" => some (.ottoCallNil m)
+  | "gcallT" => (goVal? this).map fun g => .ottoCallThis m g
+  | _ => none
+
+def callOp (p : Path) (args : List GoVal) : String :=
+  let lang := resOut obsCall (Spec.langCall env p args)
+  reply (resOut obsCall (apiCall env p args) ++ "#" ++ lang) (lang ++ "#" ++ lang) "-"
+
 def handle (ws : List String) : String :=
   match ws with
   | ["go", op, a] => match goVal? a with
@@ -354,6 +391,9 @@ def handle (ws : List String) : String :=
   | ["js", op, a] => match js? a with
     | some j => (jsOp op j).getD "bad-op"
     | none => "bad-op"
+  | "call" :: kind :: mem :: this :: args => match path? kind mem this, goVals? args with
+    | some p, some gs => callOp p gs
+    | _, _ => "bad-op"
   | _ => "bad-op"
 
 end OttoVerif.C15.Driver
